@@ -7,7 +7,7 @@ import gffutils
 from gv.model import dbutil, grammar as G
 
 ID = "C15"
-RULE = ("part 'lists': every ordered list of 1..3 features (interval over positions 1..5 x seqid {c1,c2} x strand {+,-}) x 4 option settings "
+RULE = ("part 'lists': every ordered list of 1..3 features (interval over positions 1..5 (quick: 1..4 for 3-lists) x seqid {c1,c2} x strand {+,-}; 1- and 2-lists also across the first bin boundary and with always_return_list off) x 4 option settings "
         "(new_featuretype, merge_attributes, numeric_sort, update_attributes) through the real interfeatures; part 'introns': every transcript "
         "pair (1..3 exons with distinct starts over positions 1..6/1..8, either strand) through create_introns (grandparent and parent "
         "selection) and create_splice_sites. Non-trivial = some consecutive pair touches/overlaps/changes seqid/differs in strand while "
@@ -119,11 +119,23 @@ def body_lists(ch, ctx):
     _, n, k0, si = ctx.shard
     ks = _CACHE.setdefault(("k", ctx.tier), kinds(ctx.tier))
     setting = SETTINGS[si]
-    chosen = [ks[k0]] + [ch.choose("f%d" % i, ks) for i in range(1, n)]
+    pool_ = ks
+    if n == 3 and ctx.tier == "quick":
+        pool_ = _CACHE.setdefault(("k4", ctx.tier), [k for k in ks if k[0][1] <= 4])     # quick: 3-lists over positions 1..4
+        if ks[k0] not in pool_:
+            ctx.outcome("skipped-in-quick")
+            return
+    chosen = [ks[k0]] + [ch.choose("f%d" % i, pool_) for i in range(1, n)]
+    # positions 1..5 are also placed across the first 128 kb bin boundary (131070..131074), and the global
+    # always_return_list switch is flipped -- for the shorter lists, to keep the product affordable
+    offset = ch.choose("offset", (0, 2 ** 17 - 3)) if n <= 2 else 0
+    switch = ch.choose("always_return_list", (True, False)) if n <= 2 else True
+    chosen = [((s + offset, e + offset), q, st) for (s, e), q, st in chosen]
     db = get_db(ctx)
     feats, objs = [], []
     for i, ((s, e), seqid, strand) in enumerate(chosen):
-        attrs = {"ID": ["x%d" % i], "Parent": ["t1"], "num": [str(10 - i)], "tag": ["v%d" % (i % 2)], "lvl": ["2", "10"]}
+        attrs = {"ID": ["x%d" % i] if i != 1 else ["x1", "x1alt"], "Parent": ["t1"], "num": [str(10 - i)], "tag": ["v%d" % (i % 2)],
+                 "lvl": ["2", "10"]}
         if i % 2 == 0:
             attrs["only_here"] = ["zeta", "alpha", "zeta", "9", "10"]       # on every other feature only
         ft = ("exon", "CDS")[i % 2]
@@ -138,9 +150,19 @@ def body_lists(ch, ctx):
     ctx.nontrivial(has_gap and has_nongap)
     ctx.sample(lambda: dict(features=[[f["seqid"], f["start"], f["end"], f["strand"]] for f in feats], setting=si,
                             expected=[[x["seqid"], x["start"], x["end"], x["ft"], x["strand"]] for x in exp]))
-    sig = dict(setting=si, n=n)
+    sig = dict(setting=si, n=n, always_return_list=switch)
     kw = {k: v for k, v in setting.items()}
-    got = [obs(f) for f in db.interfeatures(objs, **kw)]
+    from gffutils import constants, bins as _bins
+    orig = constants.always_return_list
+    constants.always_return_list = switch
+    try:
+        yielded = list(db.interfeatures(objs, **kw))
+    finally:
+        constants.always_return_list = orig
+    got = [obs(f) for f in yielded]
+    for f in yielded:
+        ctx.check(f.bin == _bins.bins(f.start, f.end, one=True), "interfeature-bin-differs-from-bins", dict(sig, offset=bool(offset)),
+                  start=f.start, end=f.end, bin=f.bin, expected=_bins.bins(f.start, f.end, one=True))
     ctx.outcome((n, si, len(exp), has_nongap))
     if not ctx.check(len(got) == len(exp), "interfeature-count-differs", sig, features=[[f["seqid"], f["start"], f["end"]] for f in feats],
                      got=[[g["seqid"], g["start"], g["end"]] for g in got], expected=[[g["seqid"], g["start"], g["end"]] for g in exp]):
@@ -166,6 +188,7 @@ def body_introns(ch, ctx):
     ex2 = ch.choose("exons_t2", [sets[0], sets[len(sets) // 2], sets[-1]])
     strand = ch.choose("strand", "+-")
     order = ch.choose("line_order", ("asc", "desc"))
+    switch = ch.choose("always_return_list", (True, False))
     lines = ["c1\ts\tgene\t1\t20\t.\t%s\t.\tID=g1" % strand]
     tx = {"t1": ex1, "t2": tuple((a + 10, b + 10) for a, b in ex2)}
     for t, exs in tx.items():
@@ -185,16 +208,31 @@ def body_introns(ch, ctx):
     ctx.sample(lambda: dict(file=lines, expected_introns=exp))
     ctx.outcome((len(ex1), len(exp), strand, order))
     sig = dict(strand=strand, n_exons=len(ex1))
+    from gffutils import constants
+    orig = constants.always_return_list
+    constants.always_return_list = switch
+    try:
+        _introns_checks(ctx, db, exp, strand, lines, sig)
+    finally:
+        constants.always_return_list = orig
+    ctx.check(dbutil.canon(db) == before, "database-modified", sig, file=lines)
+
+
+def _introns_checks(ctx, db, exp, strand, lines, sig):
+    def first(v):
+        return v if isinstance(v, str) else v[0]
+
     for sel, kw in (("grandparent", {}), ("parent", dict(grandparent_featuretype=None, parent_featuretype="mRNA"))):
-        got = sorted((f.attributes["Parent"][0], f.start, f.end) for f in db.create_introns(**kw))
+        got = sorted((first(G.as_plain(f.attributes)["Parent"]), f.start, f.end) for f in db.create_introns(**kw))
         ctx.check(got == sorted(exp), "introns-differ", dict(sig, selection=sel), file=lines, got=got, expected=sorted(exp))
         for f in db.create_introns(numeric_sort=True, **kw):
             a = G.as_plain(f.attributes)
-            ctx.check(a.get("lvl") == ["2", "10"] and a.get("Parent") == [f.attributes["Parent"][0]], "intron-attributes-not-sorted-union",
+            ctx.check(a.get("lvl") == ["2", "10"] and len(a.get("Parent", [])) == 1, "intron-attributes-not-sorted-union",
                       dict(sig, selection=sel), file=lines, got={k: list(v) for k, v in a.items()})
         bad = [f for f in db.create_introns(**kw) if f.featuretype != "intron" or f.strand != strand or f.seqid != "c1"]
         ctx.check(not bad, "intron-columns-wrong", dict(sig, selection=sel), file=lines, bad=[str(b) for b in bad][:3])
-        sites = [(f.featuretype, f.attributes["Parent"][0], f.start, f.end, f.strand, f.attributes["ID"][0]) for f in db.create_splice_sites(**kw)]
+        sites = [(f.featuretype, G.as_plain(f.attributes)["Parent"][0], f.start, f.end, f.strand, G.as_plain(f.attributes)["ID"][0])
+                 for f in db.create_splice_sites(**kw)]
         exp_sites = []
         for t, s, e in exp:
             exp_sites.append((LABEL[("left", strand)], t, s, s + 1, strand))
@@ -203,7 +241,6 @@ def body_introns(ch, ctx):
                   got=sorted(x[:5] for x in sites), expected=sorted(exp_sites))
         ctx.check(all(x[5].startswith(x[0] + "_") for x in sites), "splice-site-id-not-prefixed", dict(sig, selection=sel), got=sites[:4])
         ctx.check(len({x[5] for x in sites}) == len(sites), "splice-site-ids-not-distinct", dict(sig, selection=sel), got=[x[5] for x in sites])
-    ctx.check(dbutil.canon(db) == before, "database-modified", sig, file=lines)
 
 
 def body(ch, ctx):
